@@ -163,6 +163,7 @@ func famVerify(t *testing.T, seed int64, steps int) *Cluster {
 func famRestart(t *testing.T, seed int64, steps int) *Cluster {
 	opt := DefaultOptions(seed)
 	opt.Family = "restart"
+	opt.Pipeline = seed%3 == 2 // AppendEntries pipelining (no transfers in this family)
 	opt.SnapThresh = uint64(3 + seed%4)
 	opt.SnapIntv = 25 * time.Millisecond
 	opt.Trailing = uint64(seed % 4)
@@ -408,6 +409,8 @@ func famElect(t *testing.T, seed int64, steps int) *Cluster {
 func famSnap(t *testing.T, seed int64, steps int) *Cluster {
 	opt := DefaultOptions(seed)
 	opt.Family = "snap"
+	opt.Pipeline = seed%4 == 1
+	opt.HBFast = seed%3 == 2
 	opt.SnapThresh = uint64(2 + seed%4)
 	opt.SnapIntv = 20 * time.Millisecond
 	opt.Trailing = uint64(seed % 3)
